@@ -165,6 +165,10 @@ func scopesC07plain(thorough bool) []Scope {
 		Scope{Name: "L-half-2", GS: synthGS(0, 2, [2]int64{7, 7}), Spec: lat.Spec{Points: lat.Window(2, 2, 2), MaxK: k(4, 6), Valid: true}, IDSets: one},
 		Scope{Name: "L-holes-2", GS: synthGS(0, 2, [2]int64{7, 7}), Spec: lat.Spec{Points: lat.Window(2, 2, 2), MaxK: k(3, 4), Valid: true, MaxHoles: k(1, 2), HoleMaxK: 3}, IDSets: one},
 	)
+	for _, f := range familyScopes(thorough) {
+		f.Cfgs = nil
+		scs = append(scs, f)
+	}
 	return scs
 }
 
